@@ -1556,7 +1556,7 @@ func (x *Exec) execRange(n *ast.RangeStmt, st *State, env *Env) Flow {
 				// byte-wise iteration: sound for ASCII strings only (noted as an assumption)
 				x.c.notes["range over string treated byte-wise (ASCII input assumed)"] = true
 				ev = Val{T: app("rune.ofbyte", app("gs.at", coll.T, i)), Ty: types.Typ[types.Rune]}
-				x.c.declare("rune.ofbyte", "(declare-fun rune.ofbyte ((_ BitVec 8)) Int)")
+				x.c.notes["range over a string yields one rune per byte (ASCII model: rune = byte value)"] = true
 			}
 		}
 		body.vars[valObj] = Val{T: x.c.define(valObj.Name(), x.c.sortOf(valObj.Type()), ev.T), Ty: valObj.Type()}
